@@ -35,7 +35,9 @@ def items(tier):
     for p, alpha in fam:
         for api in (["FindIndex"] if tier == "quick" else ["Match", "FindIndex", "FindSubmatchIndex"]):
             for ch in alpha:
-                for L in RUN_LS[tier]:
+                # patterns whose 32-byte run already shows the known super-linear growth keep the quick run lengths: at 64 bytes
+                # the cubic one exhausts the executor's step budget
+                for L in (RUN_LS["quick"] if p in NO_LONG else RUN_LS[tier]):
                     out.append(mk("C05", p, api, L, "hex:" + ch.encode().hex(), closure=0, sample=2))
     # long runs: N concrete copies of one symbol followed by ONE symbolic byte over the pattern's alphabet. The quadratic term of
     # a guard failure has a small coefficient (a cached DFA step per byte) next to the per-candidate overhead, so it only
